@@ -260,7 +260,7 @@ pub fn run(rep: &mut Report) {
     let quick = rep.quick();
     // (s, b, all numberings?)  thorough: P(4,2) x all numberings did not finish in two hours (the labelled family alone has
     // millions of diagrams); the six-vertex diagrams of P(4,2) get three numberings, everything smaller all n!
-    let fams: Vec<(usize, usize, bool)> = if quick { vec![(3, 2, true)] } else { vec![(3, 2, true), (4, 1, true), (4, 2, false)] };
+    let fams: Vec<(usize, usize, bool)> = if quick { vec![(3, 2, true), (2, 3, true)] } else { vec![(3, 2, true), (2, 3, true), (2, 4, true), (4, 1, true), (4, 2, false)] };
     for (s, b, all) in fams {
         let t0 = Instant::now();
         let fam = family(s, b);
